@@ -16,6 +16,7 @@ package vh
 
 import (
 	"crypto/sha256"
+	"encoding/base64"
 	"encoding/binary"
 	"encoding/hex"
 	"encoding/json"
@@ -23,11 +24,13 @@ import (
 	"hash/fnv"
 	"os"
 	"path/filepath"
+	"reflect"
 	"sort"
 	"strconv"
 	"strings"
 	"sync"
 	"testing"
+	"unicode/utf8"
 
 	"pgregory.net/rapid"
 )
@@ -108,7 +111,7 @@ func Record(id string, c any, r Result) {
 		if r.Key != "" {
 			h = hash64([]byte(r.Key))
 		} else {
-			js, _ = json.Marshal(c)
+			js = MarshalCase(c)
 			h = hash64(js)
 		}
 		if _, ok := s.hashes[h]; !ok {
@@ -117,7 +120,7 @@ func Record(id string, c any, r Result) {
 			// and spread over the run.
 			if len(s.Samples) < maxSamples || h < s.Samples[len(s.Samples)-1].H {
 				if js == nil {
-					js, _ = json.Marshal(c)
+					js = MarshalCase(c)
 				}
 				if len(js) < 4000 {
 					s.Samples = append(s.Samples, sample{h, js})
@@ -161,7 +164,7 @@ type surveyEntry struct {
 // surveyAdd records a failure without stopping (development aid:
 // VERIF_SURVEY=1 lists every failure kind of a run with its smallest case).
 func surveyAdd(c any, msg string) {
-	js, _ := json.Marshal(c)
+	js := MarshalCase(c)
 	k := failKind(msg)
 	surveyMu.Lock()
 	defer surveyMu.Unlock()
@@ -187,9 +190,9 @@ func surveyDump[C any](p Prop[C]) {
 	for _, k := range ks {
 		e := surveyKinds[k]
 		var c C
-		if json.Unmarshal(e.js, &c) == nil {
+		if UnmarshalCase(e.js, &c) == nil {
 			if c2, r, ok := minimizeCase(p, c); ok {
-				e.js, _ = json.Marshal(c2)
+				e.js = MarshalCase(c2)
 				e.msg = r.Err
 			}
 		}
@@ -280,7 +283,7 @@ func SaveReplay(id string, c any, msg string) string {
 		dir = filepath.Join(os.TempDir(), "verif-replays", id)
 	}
 	os.MkdirAll(dir, 0o755)
-	js, _ := json.Marshal(c)
+	js := MarshalCase(c)
 	doc := map[string]any{"property": id, "case": json.RawMessage(js), "message": msg}
 	out, _ := json.MarshalIndent(doc, "", " ")
 	sum := sha256.Sum256(js)
@@ -309,7 +312,7 @@ func LoadReplay(path string, c any) error {
 	if doc.Case == nil {
 		return fmt.Errorf("%s: no \"case\" key", path)
 	}
-	return json.Unmarshal(doc.Case, c)
+	return UnmarshalCase(doc.Case, c)
 }
 
 // Prop is one executable property over cases of type C. C must survive a JSON
@@ -433,7 +436,7 @@ func minimize[C any](t *testing.T, p Prop[C], path string) {
 		fmt.Printf("MINIMIZE property=%s: nothing to do\n", p.ID)
 		return
 	}
-	js, _ := json.Marshal(c2)
+	js := MarshalCase(c2)
 	doc := map[string]any{}
 	if b, err := os.ReadFile(path); err == nil {
 		json.Unmarshal(b, &doc)
@@ -458,8 +461,7 @@ func minimizeCase[C any](p Prop[C], c C) (C, Result, bool) {
 	budget := 4000
 	clone := func() C {
 		var c2 C
-		js, _ := json.Marshal(c)
-		json.Unmarshal(js, &c2)
+		UnmarshalCase(MarshalCase(c), &c2)
 		return c2
 	}
 	fails := func(s string) bool {
@@ -515,4 +517,79 @@ func minimizeCase[C any](p Prop[C], c C) (C, Result, bool) {
 		return c, r0, false
 	}
 	return c2, r, true
+}
+
+// JSON cannot hold invalid UTF-8, but shell source under test can: strings
+// that are not valid UTF-8 are stored as "\x00verif-b64:<base64>".
+const b64Marker = "\x00verif-b64:"
+
+// MarshalCase encodes a case for a replay file or for hashing.
+func MarshalCase(c any) []byte {
+	v := reflect.ValueOf(c)
+	cp := reflect.New(v.Type()).Elem()
+	copyEnc(cp, v, true)
+	js, _ := json.Marshal(cp.Interface())
+	return js
+}
+
+// UnmarshalCase is the inverse of MarshalCase; c must be a pointer.
+func UnmarshalCase(js []byte, c any) error {
+	if err := json.Unmarshal(js, c); err != nil {
+		return err
+	}
+	v := reflect.ValueOf(c).Elem()
+	cp := reflect.New(v.Type()).Elem()
+	copyEnc(cp, v, false)
+	v.Set(cp)
+	return nil
+}
+
+func copyEnc(dst, src reflect.Value, enc bool) {
+	switch src.Kind() {
+	case reflect.String:
+		s := src.String()
+		if enc && !utf8.ValidString(s) {
+			s = b64Marker + base64.StdEncoding.EncodeToString([]byte(s))
+		} else if !enc && strings.HasPrefix(s, b64Marker) {
+			if b, err := base64.StdEncoding.DecodeString(s[len(b64Marker):]); err == nil {
+				s = string(b)
+			}
+		}
+		dst.SetString(s)
+	case reflect.Struct:
+		for i := 0; i < src.NumField(); i++ {
+			if dst.Field(i).CanSet() {
+				copyEnc(dst.Field(i), src.Field(i), enc)
+			}
+		}
+	case reflect.Slice:
+		if src.IsNil() {
+			return
+		}
+		n := reflect.MakeSlice(src.Type(), src.Len(), src.Len())
+		for i := 0; i < src.Len(); i++ {
+			copyEnc(n.Index(i), src.Index(i), enc)
+		}
+		dst.Set(n)
+	case reflect.Pointer:
+		if src.IsNil() {
+			return
+		}
+		n := reflect.New(src.Type().Elem())
+		copyEnc(n.Elem(), src.Elem(), enc)
+		dst.Set(n)
+	case reflect.Map:
+		if src.IsNil() {
+			return
+		}
+		n := reflect.MakeMap(src.Type())
+		for _, k := range src.MapKeys() {
+			e := reflect.New(src.Type().Elem()).Elem()
+			copyEnc(e, src.MapIndex(k), enc)
+			n.SetMapIndex(k, e)
+		}
+		dst.Set(n)
+	default:
+		dst.Set(src)
+	}
 }
